@@ -200,7 +200,7 @@ func firstDiffStr(a, b string) string {
 func c13Run(c *core.Ctx) {
 	depth, level := 3, 2
 	if c.Thorough() {
-		depth, level = 5, 2
+		depth, level = 4, 2
 	}
 	for _, fam := range []string{"php7", "php5"} {
 		f := corpus.MustFam(fam)
@@ -229,7 +229,7 @@ func c13Run(c *core.Ctx) {
 				continue
 			}
 			setBlock(&srcCase{})
-			c13Tree(c, []byte(s), v, depth+1, nil)
+			c13Tree(c, []byte(s), v, depth+2, nil)
 		}
 	}
 }
@@ -247,7 +247,7 @@ var c13Extra = []string{
 func init() {
 	register(&core.Check{
 		Prop: "C13", Level: "exploration", Exhaust: true, QuickSecs: 300, ThorSecs: 2400,
-		Rule: "for the tree of every rule-level and 2-path E-lr program of both grammars ( with and without trivia; trees returned with errors included) and of seven hand-written resolver/interpolation/error programs: every sequence over {print, dump+tokens+positions, dump, traverse(Null), resolve} of length <= 3 (quick) / <= 5 (thorough); extras one deeper, explored depth-first by replaying the path on a freshly parsed tree. " +
+		Rule: "for the tree of every rule-level and 2-path E-lr program of both grammars ( with and without trivia; trees returned with errors included) and of seven hand-written resolver/interpolation/error programs: every sequence over {print, dump+tokens+positions, dump, traverse(Null), resolve} of length <= 3 (quick) / <= 4 (thorough); the seven extras two deeper, explored depth-first by replaying the path on a freshly parsed tree. " +
 			"Oracle after every step: the step's output equals the same operation's output on a fresh tree, and a deep reflection snapshot (all fields, slice lengths and capacities, pointer-graph shape, token bytes) equals the snapshot of the fresh tree; also two parses of the same input give equal snapshots. states = distinct snapshots seen (must equal trees), transitions = operation applications judged. non-trivial = a tree was returned; distinct by (version, source)",
 		Assume: []string{"a panic inside an operation is an output like any other (it must then panic identically on a fresh tree)"},
 		Run:    c13Run,
